@@ -192,7 +192,19 @@ def r3_entry_point_last(cx):
     # extra content packs: closed inside the closure, which is created and run (collect) before any manifest write
     cl = [c for c in F.closures_of(f) if "blocks" in c and F.body(c).calls(r"PackRecipient>::close_file$")]
     ok = len(cl) == 1
-    if ok:
+    if not cl:
+        # the same step given to `map` by name (`.map(close_extra_pack)`): a function whose body closes the pack file
+        ok = False
+        for i, t in b.calls(r"Iterator>::map::<"):
+            for x in b.origins(t["args"][1], through_calls=False) if len(t["args"]) > 1 else []:
+                if x[0] == "const" and isinstance(x[1], str) and x[1].startswith("fn:"):
+                    nm = re.sub(r"<.*?>", "", x[1][3:])
+                    gs = [g_ for g_ in F.fns if re.sub(r"<.*?>", "", g_["name"]) == nm and "blocks" in g_]
+                    if len(gs) == 1 and F.deep_body(gs[0], only=r"creator::").calls(r"PackRecipient>::close_file$"):
+                        col = [j for j, _ in b.calls(r"Iterator>::collect::<") if b.dominates(i, j)]
+                        after_m = any(x_ in b.reach_after(mi, avoid=err) for mi, _ in M for x_ in [i] + col)
+                        ok = bool(col) and not after_m
+    elif ok:
         crea = [i for i, blk in enumerate(b.blocks) for s in blk["s"] if s["k"] == "assign" and s["rv"]["k"] == "agg" and s["rv"].get("closure_fn") == cl[0]["id"]]
         col = [i for i, t in b.calls(r"Iterator>::collect::<") if any(crea and crea[0] in b.reachable(0) and b.dominates(crea[0], i) for _ in [0])]
         after_m = any(x in b.reach_after(mi, avoid=err) for mi, _ in M for x in crea + col)
